@@ -202,8 +202,10 @@ def run_impl(case):
 
         def finalize(self):
             ev(["finalize", now()])
+            left.extend(ident[id(t)] for t in self.triggers)      # still installed when the loop has ended
 
     a.strategy = S()
+    left = []
     inner_status = a.broker.get_account_status
 
     def status(prices, timestamp=None):
@@ -220,7 +222,7 @@ def run_impl(case):
         ev(["raised", err])
         rec.exc = traceback.format_exc()
         obs_exc[0] = rec.exc
-    obs = {"make": made, "events": rec.events, "err": err, "exc": obs_exc[0], "left": [ident[id(t)] for t in a.strategy.triggers]}
+    obs = {"make": made, "events": rec.events, "err": err, "exc": obs_exc[0], "left": left}
     obs["actions"] = [[x.comment, cl.sec(x.timestamp), [m.market_info for m in ms].index(x.market)] for x in a.actions]
     if err is None:
         df = a.account_status_df
